@@ -49,6 +49,34 @@ def run(chk, repo):
         "subclass - copying raw bytes between variables of one byte order, "
         "say - is outside them",
         analysed=(E + "Constant.switch_endian",))
+    # who may convert: a value changes byte order where it is loaded
+    # (Memory.calculate) and where it is stored (Memory._set) - nowhere
+    # else; a comparison or an operator that swaps one side at assembly
+    # time compares or computes on raw bytes
+    allowed = {E + "Memory.calculate", E + "Memory._set",
+               E + "Memory.without_endian"}
+    users = []
+    for fn in repo.all_functions([repo.module("ebpfcat.ebpf"),
+                                  repo.module("ebpfcat.xdp"),
+                                  repo.module("ebpfcat.ebpfcat")]):
+        q = func_qual(repo, fn.body[0])
+        for c in walk_no_nested(fn):
+            if isinstance(c, ast.Call) and isinstance(
+                    c.func, ast.Attribute) and c.func.attr in (
+                        "switch_endian", "without_endian") and not (
+                            isinstance(c.func.value, ast.Call)
+                            and isinstance(c.func.value.func, ast.Name)
+                            and c.func.value.func.id == "super"):
+                users.append((q, c))
+    chk.floor("R07.6", "byte-order conversion sites", len(users), 2)
+    for q, c in users:
+        chk.ob("R07.6", q, "byte order is converted at the load and at the "
+               "store only", q in allowed, c,
+               "Memory.calculate / Memory._set" if q in allowed else
+               f"`{unparse(c)[:50]}` in {q}: one operand is converted while "
+               f"the other stays raw (an ordering comparison of a "
+               f"big-endian variable with a pre-swapped constant compares "
+               f"byte-reversed numbers)")
     from .c01 import store_immediate, r5_endian
     # the whole load route first (operand as Memory.calculate builds it),
     # then calculate_unary on its own
